@@ -232,7 +232,15 @@ def run(tier="quick", seed=0):
     pr.model_check("MCAcceptance", "MCAcceptanceDeep.cfg" if thorough else "MCAcceptance.cfg", workers=16, heap="6g", timeout=1800)
     dspecs = [{"mode": "Diffuse"}, {"mode": "Diffuse", "altitude": 33.0, "limb": 0.05, "cher": 0.3},
               {"mode": "Diffuse", "altitude": 2000.0, "cher": 0.02, "limb": 0.2}, {"mode": "Diffuse", "altitude": 5.0, "limb": 0.01}]
-    tspecs = [{"mode": "Target", "thrown": 700}, {"mode": "Target", "thrown": 500, "sun_moon_cuts": False},
+    # (non-default dark-sky limits: Moon limit +10 deg / -6 deg, Sun limit 0 deg / -12 deg, phase limit 90 deg - over a month so that the
+    # Moon is up and bright at part of the instants)
+    tspecs = [{"mode": "Target", "thrown": 700},
+              {"mode": "Target", "thrown": 700, "obst": 2.4e6, "set": {"detector.sun_moon.moon_alt_cut": float(np.radians(10.0)),
+                                                                        "detector.sun_moon.sun_alt_cut": float(np.radians(-12.0))}},
+              {"mode": "Target", "thrown": 700, "obst": 2.4e6, "set": {"detector.sun_moon.moon_alt_cut": float(np.radians(-6.0)),
+                                                                        "detector.sun_moon.sun_alt_cut": 0.0,
+                                                                        "detector.sun_moon.moon_min_phase_angle_cut": float(np.radians(90.0))}},
+              {"mode": "Target", "thrown": 500, "sun_moon_cuts": False},
               {"mode": "Target", "thrown": 600, "ra": 2.1, "dec": 0.4, "date": "2023-01-15T00:00:00", "altitude": 33.0}]
     jobs = []
     reps = 12 if thorough else 2
